@@ -1,4 +1,5 @@
 import OpusModel.Kernels
+import OpusModel.KernelsNsq
 import OpusModel.Gen.DispatchTables
 import Driver.Util
 /-
@@ -23,6 +24,12 @@ import Driver.Util
     vqwmat <vs> <XX> <xX> <cb> <cbgain> <cl> <subfr> <maxgain> <L>  silk_VQ_WMat_EC -> v=ind:res:rate:gain
     selectarch <nIds> <ecx1> <edx1> <ebx7> <cap|->                         -> arch
     dispatch <TABLE> <mask> <a>                                            -> symbol the table must hold at index a
+    nsqscale <vs> <subfr_length> <ltp_mem_length> <x16> <sLTP> <lag> <subfr> <LTP_scale_Q14> <gain> <signal_type>
+             <rewhite_flag> <sLTP_buf_idx> <sLTP_shp_buf_idx> <sLTP_shp_Q14> <sLTP_Q15> <sLF_AR_shp> <sDiff_shp> <sLPC[16]>
+             <sAR2[24]> <prev_gain>      silk_nsq_scale_states (c) / _sse4_1        -> v=xsc:…;shp:…;ltp:…;lf:…;diff:…;lpc:…;ar2:…;prev:…
+    vadnrg <vs> <xs>                     VAD sub-frame energy loop (c / sse4_1)      -> v=<sumSquared>
+    invvarq <b> <Q> / divvarq <a> <b> <Q>   silk_INVERSE32_varQ / silk_DIV32_varQ    -> value
+    sarround <vs> <a> <b> <bits>         silk_sar_round_smulww (avx2) / the C expression (c) -> v=value
 -/
 namespace Driver.SuiteKernels
 open Opus Opus.Kernels Driver
@@ -214,6 +221,56 @@ def handle : List String → String
     match specOf table, parseNat mask, parseNat a with
     | some k, some mask, some a => if a ≤ mask then (expectedTable k mask).getD a "bad-op" else "bad-op"
     | _, _, _ => "bad-op"
+  | ["invvarq", b, q] =>
+    match parseInt b, parseInt q with
+    | some b, some q => if b = 0 || q ≤ 0 then "bad-op" else s!"v={inverse32VarQ b q}"
+    | _, _ => "bad-op"
+  | ["divvarq", a, b, q] =>
+    match parseInt a, parseInt b, parseInt q with
+    | some a, some b, some q => if b = 0 || q < 0 then "bad-op" else s!"v={div32VarQ a b q}"
+    | _, _, _ => "bad-op"
+  | ["sarround", vs, a, b, bits] =>
+    match parseInt a, parseInt b, parseNat bits with
+    | some a, some b, some bits =>
+      if bits = 0 || bits ≥ 31 then "bad-op"
+      else
+        let out := (vs.splitOn ",").map (fun v =>
+          if v = "avx2" then some s!"avx2={sarRoundSmulwwAvx2 a b bits}"
+          else if v = "c" then some s!"c={sarRoundSmulwwC a b bits}"
+          else if v = "old64" then some s!"old64={sarRoundSmulww64 a b bits}"
+          else none)
+        if out.any (·.isNone) then "bad-op" else " ".intercalate (out.filterMap id)
+    | _, _, _ => "bad-op"
+  | ["vadnrg", vs, xs] =>
+    match parseIntList xs with
+    | some x =>
+      let xa := x.toArray
+      let out := (vs.splitOn ",").map (fun v =>
+        if v = "c" then some s!"c={vadEnergyC (mem xa) xa.size}"
+        else if v = "sse4_1" then some s!"sse4_1={vadEnergySse (mem xa) xa.size}"
+        else none)
+      if out.any (·.isNone) then "bad-op" else " ".intercalate (out.filterMap id)
+    | none => "bad-op"
+  | ["nsqscale", vs, sl, lm, x16, sltp, lag, subfr, lsc, gain, sig, rew, lbi, sbi, shp, ltp, lf, df, lpc, ar2, prev] =>
+    match parseNat sl, parseNat lm, parseIntList x16, parseIntList sltp, parseInt lag, parseNat subfr, parseInt lsc,
+          parseInt gain, parseInt sig, parseNat rew, parseInt lbi, parseInt sbi with
+    | some sl, some lm, some x16, some sltp, some lag, some subfr, some lsc, some gain, some sig, some rew, some lbi, some sbi =>
+      match parseIntList shp, parseIntList ltp, parseInt lf, parseInt df, parseIntList lpc, parseIntList ar2, parseInt prev with
+      | some shp, some ltp, some lf, some df, some lpc, some ar2, some prev =>
+        if x16.length != sl || ltp.length != sltp.length || lpc.length != 16 || ar2.length != 24 || subfr > 3 || prev = 0 then "bad-op"
+        else
+          let inp : NsqScIn := ⟨sl, lm, x16, sltp, lag, subfr, lsc, gain, sig, rew != 0, lbi, sbi⟩
+          let st : NsqSc := ⟨shp, ltp, [], lf, df, lpc, ar2, prev⟩
+          let pr := fun (r : NsqSc) =>
+            let il := fun (l : List Int) => if l.isEmpty then "-" else intList l
+            s!"xsc:{il r.xsc};shp:{il r.shp};ltp:{il r.ltpQ15};lf:{r.lfAr};diff:{r.diff};lpc:{il r.lpc};ar2:{il r.ar2};prev:{r.prevGain}"
+          let out := (vs.splitOn ",").map (fun v =>
+            if v = "c" then some ("c=" ++ pr (nsqScaleStatesC inp st))
+            else if v = "sse4_1" then some ("sse4_1=" ++ pr (nsqScaleStatesSse inp st))
+            else none)
+          if out.any (·.isNone) then "bad-op" else " ".intercalate (out.filterMap id)
+      | _, _, _, _, _, _, _ => "bad-op"
+    | _, _, _, _, _, _, _, _, _, _, _, _ => "bad-op"
   | _ => "bad-op"
 
 end Driver.SuiteKernels
